@@ -343,6 +343,10 @@ RunProg(S, c, prog, i, keys, args, tm, fz, robs) ==
              name == IF Len(argv) = 0 THEN "?" ELSE NameOf(argv)
              binary == \E j \in 1..Len(argv) : ~IsUtf8(argv[j])
              outs == IF name \in NotInScripts THEN SFail(S)
+                     ELSE IF name = "SELECT"
+                     THEN (* a connection command: refused (C12), or, as in Redis, a selection that lasts until the script
+                             ends (CmdEVAL restores the connection's own selection) — never a selection that outlives it *)
+                          SFail(S) \cup CmdSELECT(S, c, argv)
                      ELSE IF name \in ExtraCommands
                      THEN (* by C12 a script call means what the direct command means, and the direct dispatch does not know
                              these commands: an error.  KNOWN FINDING script_superset: the executor implements them. *)
@@ -373,9 +377,10 @@ CmdEVAL(S, c, a, tm, obs, bysha) ==
          SOut(ROneOf({RErr, RNil}), S)
     ELSE LET keys == Sub(a, 4, 3 + nk) args == Sub(a, 4 + nk, Len(a))
              S1 == IF bysha THEN S ELSE [S EXCEPT !.scripts = @ \cup {obs.sha}]
-         IN RunProg(S1, c, obs.prog, 1, keys, args, tm, FALSE, obs.r)
+             Back(o) == [o EXCEPT !.S.conns[c].db = S.conns[c].db]      \* a selection made inside the script ends with it
+         IN {Back(o) : o \in RunProg(S1, c, obs.prog, 1, keys, args, tm, FALSE, obs.r)}
             \cup (IF "script_conv" \in Deviations
-                  THEN {[o EXCEPT !.dv = @ \cup {"script_conv"}] : o \in RunProg(S1, c, obs.prog, 1, keys, args, tm, TRUE, obs.r)}
+                  THEN {Back([o EXCEPT !.dv = @ \cup {"script_conv"}]) : o \in RunProg(S1, c, obs.prog, 1, keys, args, tm, TRUE, obs.r)}
                   ELSE {})
 
 (* A script queued in a transaction runs at EXEC time: the program recorded when the request was queued (S.progs,
